@@ -298,6 +298,76 @@ static void do_timing(int nt, char **t)
   ares_destroy(c);
 }
 
+/* ------------------------------------------------------------------ wait-empty soundness (C11)
+ * A waiter sits in ares_queue_wait_empty(timeout).  A completion callback (running under the channel lock) cancels
+ * everything - the queue is empty for a moment and the waiters are notified - and then starts a new request before the
+ * lock is released.  The waiter must re-evaluate the queue: it may only report success with nothing outstanding. */
+typedef struct {
+  ares_channel_t *c;
+  int             resend;
+  tcb_t          *second;
+} we_t;
+static void we_cb(void *arg, ares_status_t status, size_t timeouts, const ares_dns_record_t *rec)
+{
+  we_t *w = arg;
+  (void)status;
+  (void)timeouts;
+  (void)rec;
+  if (w->resend) {
+    w->resend = 0;
+    ares_cancel(w->c);
+    ares_query_dnsrec(w->c, "silent-second.example", ARES_CLASS_IN, ARES_REC_TYPE_A, timing_cb, w->second, NULL);
+  }
+}
+typedef struct {
+  ares_channel_t    *c;
+  int                timeout;
+  volatile int       status;
+  volatile int       active;
+  volatile long long elapsed;
+} waiter_t;
+static void *we_waiter(void *arg)
+{
+  waiter_t *w  = arg;
+  long long t0 = now_ms();
+  w->status    = (int)ares_queue_wait_empty(w->c, w->timeout);
+  w->active    = (int)ares_queue_active_queries(w->c);
+  w->elapsed   = now_ms() - t0;
+  return NULL;
+}
+static void do_waitempty(int nt, char **t)
+{
+  const char     *evs  = arg(nt, t, "evsys", "epoll");
+  int             wait = (int)argi(nt, t, "wait", 800);
+  ares_channel_t *c    = mkchan(evsys_of(evs), ARES_FLAG_STAYOPEN, 3000, 3);
+  tcb_t           second;
+  we_t            we;
+  waiter_t        w;
+  pthread_t       th;
+  if (c == NULL) {
+    printf("waitempty %s unsupported\n", evs);
+    return;
+  }
+  memset(&second, 0, sizeof(second));
+  we.c      = c;
+  we.resend = 1;
+  we.second = &second;
+  ares_query_dnsrec(c, "silent-first.example", ARES_CLASS_IN, ARES_REC_TYPE_A, we_cb, &we, NULL);
+  w.c       = c;
+  w.timeout = wait;
+  w.status  = -1;
+  w.active  = -1;
+  w.elapsed = -1;
+  pthread_create(&th, NULL, we_waiter, &w);
+  usleep((useconds_t)argi(nt, t, "gap", 150) * 1000);
+  ares_cancel(c); /* -> we_cb: cancel (queue momentarily empty, waiters notified), then a new request */
+  pthread_join(th, NULL);
+  printf("waitempty %s status=%d active=%d elapsed=%lld wait=%d second_done=%d\n", evs, w.status, w.active, w.elapsed, wait,
+         second.done);
+  ares_cancel(c);
+  ares_destroy(c);
+}
+
 /* ------------------------------------------------------------------ stress (C11) */
 #define MAXREQ 20000
 typedef struct {
@@ -551,6 +621,8 @@ int main(void)
       do_timing(nt, t);
     } else if (!strcmp(t[0], "stress")) {
       do_stress(nt, t);
+    } else if (!strcmp(t[0], "waitempty")) {
+      do_waitempty(nt, t);
     } else {
       puts("bad-op");
     }
